@@ -225,6 +225,59 @@ def _normalise(tree):
                     if isinstance(b, list) and b and isinstance(b[0], ast.stmt):
                         propagate(b)
     # `if not c: A else: B` (B not an elif chain) is `if c: B else: A`: one polarity only, so that rules need not know both
+    # `x = a if c else b` is `if c: x = a else: x = b`
+    class _Tern(ast.NodeTransformer):
+        def visit_Assign(self, n):
+            if len(n.targets) == 1 and isinstance(n.targets[0], ast.Name) and isinstance(n.value, ast.IfExp):
+                mk = lambda v: ast.copy_location(ast.Assign(targets=[ast.copy_location(ast.Name(id=n.targets[0].id, ctx=ast.Store()), n.targets[0])], value=v), n)
+                return ast.copy_location(ast.If(test=n.value.test, body=[mk(n.value.body)], orelse=[mk(n.value.orelse)]), n)
+            return n
+    tree = _Tern().visit(tree)
+    ast.fix_missing_locations(tree)
+    # a temporary that only carries the result of a call into the next statement (`t = g(y)` directly followed by a statement that
+    # reads `t` exactly once, as a positional argument of a call, `t` having no other definition or use in the function) is inlined:
+    # "extract variable" and its reverse give one shape
+    def inline_temps(fn):
+        counts: Dict[str, List[int]] = {}
+        for x in ast.walk(fn):
+            if isinstance(x, ast.Name):
+                c = counts.setdefault(x.id, [0, 0])
+                c[0 if isinstance(x.ctx, ast.Store) else 1] += 1
+        params = {a.arg for a in fn.args.posonlyargs + fn.args.args + fn.args.kwonlyargs}
+
+        def block(stmts):
+            out = []
+            i = 0
+            while i < len(stmts):
+                st = stmts[i]
+                nxt = stmts[i + 1] if i + 1 < len(stmts) else None
+                if (isinstance(st, ast.Assign) and len(st.targets) == 1 and isinstance(st.targets[0], ast.Name) and isinstance(st.value, ast.Call)
+                        and counts.get(st.targets[0].id) == [1, 1] and st.targets[0].id not in params and nxt is not None
+                        and isinstance(nxt, (ast.Assign, ast.Expr, ast.Return, ast.AugAssign)) and getattr(nxt, "value", None) is not None):
+                    t = st.targets[0].id
+                    site = None
+                    for c in ast.walk(nxt.value):
+                        if isinstance(c, ast.Call):
+                            for k, a in enumerate(c.args):
+                                if isinstance(a, ast.Name) and a.id == t:
+                                    site = (c, k)
+                    if site is not None:
+                        site[0].args[site[1]] = st.value
+                        i += 1
+                        continue
+                out.append(st)
+                i += 1
+            return out
+        for node in ast.walk(fn):
+            if node is not fn and isinstance(node, (ast.FunctionDef, ast.AsyncFunctionDef)):
+                continue
+            for fld in ("body", "orelse", "finalbody"):
+                b = getattr(node, fld, None)
+                if isinstance(b, list) and b and isinstance(b[0], ast.stmt):
+                    setattr(node, fld, block(b))
+    for node in ast.walk(tree):
+        if isinstance(node, (ast.FunctionDef, ast.AsyncFunctionDef)):
+            inline_temps(node)
     # `if c: <body that always leaves> else: B` is `if c: <body>` followed by B: the else branch is lifted out (so a guard clause and the
     # nested if/else form of the same code are one shape; elif chains whose arms all return become a sequence of ifs)
     def leaves(body) -> bool:
